@@ -421,6 +421,11 @@ def find_fields(src, cls):
         init = None
         if '=' in s:
             s, init = [x.strip() for x in s.split('=', 1)]
+        # bit-field:  T name : N   (kept: C has the same construct; the width travels in the dims slot as ': N')
+        bitw = None
+        mb = re.match(r'(.+?[A-Za-z_]\w*)\s*:\s*(\d+)$', s)
+        if mb and '::' not in s[mb.start(2) - 3:]:
+            s, bitw = mb.group(1).strip(), mb.group(2)
         m = re.match(r'(.+?)\s*([A-Za-z_]\w*(?:\s*\[[^\]]*\])*(?:\s*,\s*[A-Za-z_]\w*(?:\s*\[[^\]]*\])*)*)$', s)
         if not m:
             raise ExtractError('cannot parse member of %s: %s' % (cls, s))
@@ -428,7 +433,7 @@ def find_fields(src, cls):
         for d in m.group(2).split(','):
             d = d.strip()
             mm = re.match(r'([A-Za-z_]\w*)(.*)$', d)
-            fields.append((ty, mm.group(1), mm.group(2).strip(), init))
+            fields.append((ty, mm.group(1), (': ' + bitw) if bitw else mm.group(2).strip(), init))
     return fields
 
 
